@@ -188,7 +188,8 @@ class Mesh(Observable):
     def inDim(self):
         """dimension in which the mesh lies.\n
         A 2D mesh can be oriented in a 3D space."""
-        return self.__inDim
+        # follows the current coordinates (the nodes can be moved after the construction)
+        return max(groupElem.inDim for groupElem in self.__dict_groupElem.values())
 
     def _Get_realistic_vector_magnitude(self, coef=0.1) -> float:
         """Returns a realistic vector magnitude based on the mesh size.
